@@ -37,6 +37,8 @@ impl RandomPolicy {
 
             let max = self.store.len();
             if max == 0 {
+                #[cfg(memcrs_verif)]
+                crate::verif::emit("policy.evict.store_empty", usage, value);
                 self.decr_mem_usage(usage);
                 break;
             }
